@@ -13,15 +13,15 @@ import (
 
 // Violation is one property violation found on one execution.
 type Violation struct {
-	Property string `json:"property"`
-	Scenario string `json:"scenario"`
-	Clause   string `json:"clause"` // short, stable: part of the known-finding signature
-	Detail   string `json:"detail"`
-	Choices  []int  `json:"choices,omitempty"`
-	Ops      []string `json:"ops,omitempty"` // seq explorer: the operation list
-	Trace    []string `json:"trace,omitempty"`
-	Log      []string `json:"log,omitempty"`
-	Preempts int    `json:"preemptions"`
+	Property string            `json:"property"`
+	Scenario string            `json:"scenario"`
+	Clause   string            `json:"clause"` // short, stable: part of the known-finding signature
+	Detail   string            `json:"detail"`
+	Choices  []int             `json:"choices,omitempty"`
+	Ops      []string          `json:"ops,omitempty"` // seq explorer: the operation list
+	Trace    []string          `json:"trace,omitempty"`
+	Log      []string          `json:"log,omitempty"`
+	Preempts int               `json:"preemptions"`
 	Params   map[string]string `json:"params,omitempty"`
 }
 
@@ -62,20 +62,20 @@ type Scenario struct {
 
 // Stats of one exploration.
 type Stats struct {
-	Executions   int64          `json:"executions"`
-	Pruned       int64          `json:"pruned"`
-	Transitions  int64          `json:"transitions"`
-	States       int64          `json:"states"`
-	MaxChoices   int            `json:"max_choice_points"`
-	MaxSteps     int            `json:"max_steps"`
-	Outcomes     map[string]int64 `json:"outcomes"`
-	BoundDone    int            `json:"bound_completed"`
-	Exhaustive   bool           `json:"exhaustive"`
-	TimedOut     bool           `json:"timed_out"`
-	MaxPreempts  int            `json:"max_preemptions_seen"`
-	Threads      int            `json:"threads"`
-	Sample       []string       `json:"sample,omitempty"`
-	WallS        float64        `json:"wall_s"`
+	Executions  int64            `json:"executions"`
+	Pruned      int64            `json:"pruned"`
+	Transitions int64            `json:"transitions"`
+	States      int64            `json:"states"`
+	MaxChoices  int              `json:"max_choice_points"`
+	MaxSteps    int              `json:"max_steps"`
+	Outcomes    map[string]int64 `json:"outcomes"`
+	BoundDone   int              `json:"bound_completed"`
+	Exhaustive  bool             `json:"exhaustive"`
+	TimedOut    bool             `json:"timed_out"`
+	MaxPreempts int              `json:"max_preemptions_seen"`
+	Threads     int              `json:"threads"`
+	Sample      []string         `json:"sample,omitempty"`
+	WallS       float64          `json:"wall_s"`
 }
 
 // knownSigs holds the signatures listed as status=known in known_findings.json
@@ -111,18 +111,18 @@ func loadKnown() map[string]bool {
 
 // Explorer is the preemption-bounded DFS with happens-before state caching.
 type Explorer struct {
-	known     map[string]*Violation
-	sc        *Scenario
-	bound     int
-	shard     int
-	nshards   int
-	deadline  time.Time
-	visited   map[uint64]int8
-	st        Stats
-	viol      *Violation
-	infraErr  string
-	l2        int
-	noCache   bool
+	known    map[string]*Violation
+	sc       *Scenario
+	bound    int
+	shard    int
+	nshards  int
+	deadline time.Time
+	visited  map[uint64]int8
+	st       Stats
+	viol     *Violation
+	infraErr string
+	l2       int
+	noCache  bool
 }
 
 func (e *Explorer) runOnce(prefix []int, trace bool, prune func(int, rt.PointInfo) bool) (*Run, *rt.Outcome) {
@@ -325,13 +325,13 @@ func Replay(sc *Scenario, choices []int) (*Violation, *rt.Outcome, string) {
 
 // WorkerResult is what one worker process prints as JSON.
 type WorkerResult struct {
-	Scenario  string     `json:"scenario"`
+	Scenario  string            `json:"scenario"`
 	Params    map[string]string `json:"params,omitempty"`
-	Stats     *Stats     `json:"stats"`
-	Violation *Violation `json:"violation,omitempty"`
-	Infra     string     `json:"infra,omitempty"`
-	Confirmed int        `json:"confirmed"`
-	Known     []*Violation `json:"known_hits,omitempty"`
+	Stats     *Stats            `json:"stats"`
+	Violation *Violation        `json:"violation,omitempty"`
+	Infra     string            `json:"infra,omitempty"`
+	Confirmed int               `json:"confirmed"`
+	Known     []*Violation      `json:"known_hits,omitempty"`
 }
 
 func mergeOutcomes(dst, src map[string]int64) {
